@@ -10,8 +10,8 @@ open Muscle
 
 /-! ## raw sender (shared by SLIP) -/
 
-/-- the bytes a Message contributes: its chunks up to the first empty one (`FindData` fails there) -/
-def rawEff (m : List Bytes) : Bytes := (m.takeWhile (fun c => !c.isEmpty)).flatten
+/-- the bytes a Message contributes: all its chunks, back to back -/
+def rawEff (m : List Bytes) : Bytes := m.flatten
 
 def rawQueueBytes : List (List Bytes) → Bytes
   | [] => []
@@ -25,14 +25,28 @@ theorem rawQueueBytes_append (a b : List (List Bytes)) : rawQueueBytes (a ++ b) 
 def rawPending (t : RawTx) : Bytes :=
   (if t.hasMsg then t.cur ++ rawEff t.chunks else []) ++ rawQueueBytes t.queue
 
-theorem rawEff_cons_nonempty (c : Bytes) (cs : List Bytes) (h : c.isEmpty = false) : rawEff (c :: cs) = c ++ rawEff cs := by
-  simp [rawEff, List.takeWhile, h]
-
-theorem rawEff_cons_empty (c : Bytes) (cs : List Bytes) (h : c.isEmpty = true) : rawEff (c :: cs) = [] := by
-  simp [rawEff, List.takeWhile, h]
-
 theorem isEmpty_eq_nil {α} (l : List α) (h : l.isEmpty = true) : l = [] := by
   cases l <;> simp_all
+
+/-- skipping the chunks without bytes does not change the bytes -/
+theorem flatten_dropWhile_empty (l : List Bytes) : (l.dropWhile (fun c => c.isEmpty)).flatten = l.flatten := by
+  induction l with
+  | nil => rfl
+  | cons c cs ih =>
+    rw [List.dropWhile_cons]
+    cases hc : c.isEmpty with
+    | true => simp [ih, isEmpty_eq_nil c hc]
+    | false => simp
+
+theorem rawSettle_chunks (chunks : List Bytes) :
+    (match chunks.dropWhile (fun c => c.isEmpty) with
+      | c :: cs => c ++ rawEff cs
+      | [] => []) = rawEff chunks := by
+  have h := flatten_dropWhile_empty chunks
+  unfold rawEff
+  cases hd : chunks.dropWhile (fun c => c.isEmpty) with
+  | nil => rw [hd] at h; simpa using h
+  | cons c cs => rw [hd] at h; simpa using h
 
 theorem rawSettle_pending (t : RawTx) : rawPending (rawSettle t).1 = rawPending t := by
   obtain ⟨hm, chunks, cur, queue⟩ := t
@@ -41,22 +55,24 @@ theorem rawSettle_pending (t : RawTx) : rawPending (rawSettle t).1 = rawPending 
     cases queue with
     | nil => simp [rawSettle, rawPending]
     | cons m r =>
-      cases m with
-      | nil => simp [rawSettle, rawPending, rawQueueBytes, rawEff]
-      | cons c cs =>
-        cases hc : c.isEmpty
-        · simp [rawSettle, rawPending, rawQueueBytes, hc, rawEff_cons_nonempty c cs hc]
-        · simp [rawSettle, rawPending, rawQueueBytes, hc, rawEff_cons_empty c cs hc]
+      have h := rawSettle_chunks m
+      cases hd : m.dropWhile (fun c => c.isEmpty) with
+      | nil =>
+        rw [hd] at h
+        have h' : rawEff m = [] := h.symm
+        simp [rawSettle, rawPending, rawQueueBytes, hd, h']
+      | cons c cs => rw [hd] at h; simp [rawSettle, rawPending, rawQueueBytes, hd, ← h]
   · cases hcur : cur.isEmpty
     · simp [rawSettle, rawPending, hcur]
     · have := isEmpty_eq_nil cur hcur
       subst this
-      cases chunks with
-      | nil => simp [rawSettle, rawPending, rawEff]
-      | cons c cs =>
-        cases hc : c.isEmpty
-        · simp [rawSettle, rawPending, hc, rawEff_cons_nonempty c cs hc]
-        · simp [rawSettle, rawPending, hc, rawEff_cons_empty c cs hc]
+      have h := rawSettle_chunks chunks
+      cases hd : chunks.dropWhile (fun c => c.isEmpty) with
+      | nil =>
+        rw [hd] at h
+        have h' : rawEff chunks = [] := h.symm
+        simp [rawSettle, rawPending, hd, h']
+      | cons c cs => rw [hd] at h; simp [rawSettle, rawPending, hd, ← h]
 
 theorem rawTx_refines (enc : List Bytes → List Bytes) :
     TxRefines rawTx (fun t m => { t with queue := t.queue ++ [enc m] }) rawPending (fun m => rawEff (enc m)) where
@@ -205,16 +221,9 @@ end Muscle.Gateway
 namespace Muscle.Gateway
 open Muscle
 
-theorem takeWhile_slipEncode (K : SlipK) (l : List Bytes) :
-    ((l.map (slipEncode K)).takeWhile (fun c => !c.isEmpty)) = l.map (slipEncode K) := by
-  induction l with
-  | nil => rfl
-  | cons x r ih => simp [List.takeWhile_cons, slipEncode, ih]
-
-/-- what a Message contributes to the SLIP stream: the encodings of its chunks up to the first empty one -/
+/-- what a Message contributes to the SLIP stream: the encodings of its chunks that have bytes -/
 theorem rawEff_slipMsg (K : SlipK) (m : List Bytes) :
-    rawEff (slipMsg K m) = ((m.takeWhile (fun c => !c.isEmpty)).map (slipEncode K)).flatten := by
-  simp only [rawEff, slipMsg, takeWhile_slipEncode]
+    rawEff (slipMsg K m) = ((m.filter (fun c => !c.isEmpty)).map (slipEncode K)).flatten := rfl
 
 /-- a run of encoded non-empty chunks decodes to exactly those chunks -/
 theorem slip_chunks_roundtrip (K : SlipK) (hK : K.WF) : ∀ (xs : List Bytes) (rest : Bytes), (∀ x ∈ xs, x.isEmpty = false) →
@@ -230,30 +239,21 @@ theorem slip_chunks_roundtrip (K : SlipK) (hK : K.WF) : ∀ (xs : List Bytes) (r
     rw [slip_roundtrip_append K hK x, ih rest (fun y hy => h y (by simp [hy]))]
     simp [hx]
 
-theorem takeWhile_all_nonempty (m : List Bytes) : ∀ x ∈ m.takeWhile (fun c => !c.isEmpty), x.isEmpty = false := by
-  induction m with
-  | nil => intro x hx; simp at hx
-  | cons a r ih =>
-    intro x hx
-    rw [List.takeWhile_cons] at hx
-    cases ha : a.isEmpty with
-    | true => simp [ha] at hx
-    | false =>
-      simp only [ha, Bool.not_false, if_true, List.mem_cons] at hx
-      rcases hx with h | h
-      · rw [h]; exact ha
-      · exact ih x h
+theorem filter_all_nonempty (m : List Bytes) : ∀ x ∈ m.filter (fun c => !c.isEmpty), x.isEmpty = false := by
+  intro x hx
+  have := (List.mem_filter.mp hx).2
+  simpa using this
 
 /-- a whole queue of SLIP Messages -/
 theorem slip_stream_roundtrip (K : SlipK) (hK : K.WF) : ∀ (ms : List (List Bytes)),
     feedBy (slipByte K) slipIdle (streamOf (fun m => rawEff (slipMsg K m)) ms) =
-      (slipIdle, (ms.map (fun m => m.takeWhile (fun c => !c.isEmpty))).flatten) := by
+      (slipIdle, (ms.map (fun m => m.filter (fun c => !c.isEmpty))).flatten) := by
   intro ms
   induction ms with
   | nil => simp [streamOf, feedBy]
   | cons m r ih =>
     simp only [streamOf]
-    rw [rawEff_slipMsg, slip_chunks_roundtrip K hK _ _ (takeWhile_all_nonempty m), ih]
+    rw [rawEff_slipMsg, slip_chunks_roundtrip K hK _ _ (filter_all_nonempty m), ih]
     simp
 
 end Muscle.Gateway
